@@ -171,6 +171,37 @@ fn main() {
                 println!("{:#018x}", w(4 + i));
             }
         }
+        "dump-corpus" => {
+            // write N pseudo-random tapes as binary corpus files for the libFuzzer tier
+            let dir = args.get(2).cloned().unwrap_or_else(|| usage());
+            let n: u64 = arg_val(&args, "--n").and_then(|s| s.parse().ok()).unwrap_or(64);
+            let words: usize = arg_val(&args, "--words").and_then(|s| s.parse().ok()).unwrap_or(64);
+            let seed: u64 = arg_val(&args, "--seed").and_then(|s| s.parse().ok()).unwrap_or(0);
+            std::fs::create_dir_all(&dir).unwrap();
+            let mut st = seed ^ 0x5eed_c0de;
+            for i in 0..n {
+                let len = 1 + (vmv::tape::splitmix(&mut st) as usize % words);
+                let mut buf = Vec::with_capacity(len * 8);
+                for _ in 0..len {
+                    buf.extend_from_slice(&vmv::tape::splitmix(&mut st).to_le_bytes());
+                }
+                std::fs::write(format!("{}/seed-{:04}", dir, i), &buf).unwrap();
+            }
+            std::fs::write(format!("{}/empty", dir), b"").unwrap();
+        }
+        "tape-from-bytes" => {
+            // convert a libFuzzer artifact into a replay file on stdout
+            let path = args.get(2).cloned().unwrap_or_else(|| usage());
+            let id = arg_val(&args, "--prop").unwrap_or_else(|| usage());
+            let sub = arg_val(&args, "--sub").unwrap_or_else(|| usage());
+            let data = std::fs::read(&path).unwrap();
+            println!("property {}\nsubcheck {}\nbuild std\nmode random\nwords {}", id, sub, data.len().div_ceil(8));
+            for c in data.chunks(8) {
+                let mut b = [0u8; 8];
+                b[..c.len()].copy_from_slice(c);
+                println!("{:#018x}", u64::from_le_bytes(b));
+            }
+        }
         "merge-keys" => {
             let mut all: Vec<u64> = Vec::new();
             for f in &args[2..] {
